@@ -40,6 +40,25 @@ def main() -> None:
                     args, kwargs = list(cand), {}
                     out["replayed_args"] = list(cand)
                     break
+    if out["kernel"] == "not-reproduced" and not req.get("no_fresh"):
+        # same idea, but every candidate in its own fresh interpreter (for obligations that already
+        # contain an explicit earlier call: state must not leak between candidates)
+        domf = getattr(mod, "dom_fresh_" + req["func"][3:], None)
+        if domf is not None:
+            import subprocess
+            for cand in domf():
+                sub = dict(req, call=[list(cand), {}], lift=None, no_fresh=True)
+                p = subprocess.run([sys.executable, "-m", "vq.replay_kernel"], input=json.dumps(sub), text=True, capture_output=True)
+                try:
+                    o2 = json.loads(p.stdout.strip().split("\n")[-1])
+                except Exception:
+                    continue
+                if o2.get("kernel") == "reproduced":
+                    out["kernel"] = "reproduced"
+                    out["kernel_value"] = "False for the nearby values %r in a fresh interpreter (solver's own values %r did not reproduce there)" % (list(cand), args)
+                    out["replayed_args"] = list(cand)
+                    args, kwargs = list(cand), {}
+                    break
     why = getattr(mod, "why_" + req["func"][3:], None)
     if why is not None:
         try:
